@@ -115,4 +115,3 @@ func probes() pbt.Probes {
 		fCloseRace:   {Input: probeCloseRaceCase(), Fn: probeCloseRace},
 	}
 }
-
